@@ -9,7 +9,7 @@ from mc.core import Result, SubCheck
 PROPERTY = "C20"
 ASSUMPTIONS = [
     "NTU x capacity-ratio lattice (8 x 7 quick, 29 x 22 thorough; the capacity ratios include 1e-3 (and 1e-6 in the thorough tier) and values within 1e-3 and 1e-6 of 1, next to the zero-ratio and balanced special cases; smaller positive ratios are outside the alphabet: the relations contain (1 - exp(-c x))/c, whose rounding error grows like 1e-16/c, so the bounds are compared with 1e-9 + 1e-15/c), all 8 arrangements, both label forms (enum member / its text), passes {None,1,2,3,4}",
-    "round trip in NTU space is compared with a tolerance scaled by the local conditioning (1/slope of effectiveness), in effectiveness space absolutely (3e-5: the library's secant inversion stops at 1e-5)",
+    "round trip in NTU space is compared with a tolerance scaled by the local conditioning (1/slope of effectiveness), in effectiveness space absolutely (3e-5 x number of passes: the library's secant inversion stops at 1e-5 in the effectiveness of one pass)",
     "points whose effectiveness rounds to exactly 1.0 in floating point are not invertible and are skipped in the round trip (counted)",
 ]
 ARR = ["CF", "PF", "CrFUU", "CrFMM", "CrFMUmax", "CrFMUmin", "ShellTube", "CondEvap"]
@@ -144,12 +144,15 @@ def eff_run(case, res: Result):
                 e_back = HX_Eff(lab, N2, c, p)
             except Exception as exc:
                 e_back = float("nan")
-            if not abs(e_back - e) <= 3e-5:
+            # the library's numerical inversion stops at 1e-5 in the effectiveness of ONE pass; the multi-pass combination
+            # has a derivative of at most P with respect to it, so the bound for the overall effectiveness is P times as wide
+            tol_e = 3e-5 * max(1, p or 1)
+            if not abs(e_back - e) <= tol_e:
                 res.violate("effectiveness_round_trip", case, dict(detail, ntu_back=N2, eff_back=e_back), f"effectiveness_round_trip:{tag}")
             # NTU space, scaled by conditioning
             h = 1e-4 * N
             slope = (HX_Eff(lab, N + h, c, p) - HX_Eff(lab, N - h, c, p)) / (2 * h)
-            if slope > 1e-9 and abs(N2 - N) > 3e-5 / slope + 1e-7 * N:
+            if slope > 1e-9 and abs(N2 - N) > tol_e / slope + 1e-7 * N:
                 res.violate("ntu_round_trip", case, dict(detail, ntu_back=N2, slope=slope), f"ntu_round_trip:{tag}")
         else:
             res.stats["not_invertible_point"] += 1
@@ -205,7 +208,10 @@ def grid_run(case, res: Result):
                 e_back = float("nan")
             outcome.append(round(N, 7))
             nontriv = True
-            if not abs(e_back - e) <= 3e-5:
+            # the library's numerical inversion stops at 1e-5 in the effectiveness of ONE pass; the multi-pass combination
+            # has a derivative of at most P with respect to it, so the bound for the overall effectiveness is P times as wide
+            tol_e = 3e-5 * max(1, p or 1)
+            if not abs(e_back - e) <= tol_e:
                 sig = f"grid_round_trip:{a}:{form}"
                 res.violate("effectiveness_round_trip_on_grid", case, {"arrangement": a, "eff": e, "ntu": N, "eff_back": e_back, "c": c, "passes": p,
                                                                        "arrangements_before": arrs[:arrs.index(a)]}, sig)
